@@ -36,7 +36,7 @@ RoundTrip(f, variant) == Decode(TextLayer(Encode(f), variant)) = f
 (* ---------------- CSV rows ---------------- *)
 \* a row is <<annotator, label, start, end>> ; the continuum read from a file
 ZeroLength(r) == r[3] >= r[4]
-CsvOutcome(rows, discard) == IF ~discard /\ \E i \in 1..Len(rows) : ZeroLength(rows[i]) THEN "ValueError" ELSE "ok"
+CsvOutcome(rows, discard) == IF ~discard /\ \E i \in 1..Len(rows) : ZeroLength(rows[i]) THEN "rejected" ELSE "ok"
 CsvUnits(rows) == {<<rows[i][1], rows[i][3], rows[i][4], rows[i][2]>> : i \in {k \in 1..Len(rows) : ~ZeroLength(rows[k])}}
 CsvAnnotators(rows) == {rows[i][1] : i \in {k \in 1..Len(rows) : ~ZeroLength(rows[k])}}
 
